@@ -29,7 +29,7 @@ RULE = ("Layer A: for every operator, every (vmin, vmax) in (D u {None})^2 with 
         " OR programs in both orders). Layer P: partition-key kind (int {1,2}, str {a,b}, int3 {2,10,-1}) x hive / "
         "drill, str2 {aa,b}, bool and date keys (hive; thorough also drill), hive without pandas metadata (int3, "
         "str2; thorough also int), two-level p x q layouts (hive, drill; thorough also hive without metadata): every "
-        "operator x every key value and values outside, in / not in over [v], [v0,v1], [v0,outside], (v0,), {v1}, [],"
+        "operator x every key value and values outside (for integer keys also fractional constants between two keys), in / not in over [v], [v0,v1], [v0,outside], (v0,), {v1}, [],"
         " mixed with conditions on a data column and OR groups. Observed through to_pandas, iter_row_groups, count, "
         "filter_row_groups (row-group list and as_idx); non-trivial = a filter evaluation on a dataset with >= 1 "
         "qualifying row")
@@ -579,8 +579,8 @@ def _strip_pandas_meta(path):
 def _ppool(pk):
     """(partition key values, constants outside them)"""
     import pandas as pd
-    return {"int": ([1, 2], [0, 3]), "str": (["a", "b"], ["0", "c"]),
-            "int3": ([2, 10, -1], [0, 5, 11]),            # several digits, a sign: text order != number order
+    return {"int": ([1, 2], [0, 3, 1.5]), "str": (["a", "b"], ["0", "c"]),    # 1.5: between two integer keys
+            "int3": ([2, 10, -1], [0, 5, 11, 2.5, -0.5]),  # several digits, a sign: text order != number order
             "str2": (["aa", "b"], ["a", "ab", "c"]),      # longer than one character
             "bool": ([True, False], []),
             "date": ([pd.Timestamp("2020-01-01"), pd.Timestamp("2020-01-02")],
